@@ -85,8 +85,14 @@ def _cond_checked_sub_start(body, bb):
     dominated by the corresponding comparison"""
     t = body.term(bb)
     o = origin(body, t['args'][1])
-    if any(call_matches(c, ['::checked_sub']) for c in o.calls) and 'ok_or' in o.flags and 'try' in o.flags:
+    cs = [c for c in o.calls if call_matches(c, ['::checked_sub'])]
+    if cs and 'ok_or' in o.flags and 'try' in o.flags:
         return True
+    if cs:
+        # `let Some(start) = a.checked_sub(b) else { return Err(..) }` / match with None => Err
+        from .c11 import option_none_errs
+        if all(option_none_errs(body, c)[0] for c in cs):
+            return True
     if {x for x in o.flags if x.startswith('arith:')} <= {'arith:SubWithOverflow', 'arith:Sub'} and o.has_arith():
         return _guarded_subs_only(body, o)
     return False
@@ -555,4 +561,4 @@ def loop_rule(ctx, scope):
             else:
                 why = 'no input-consuming step and no bounded iterator in the loop'
             ctx.ob('LOOP', '%s/loop@%d' % (fn_label(b), sum(1 for h2 in natural_loops(b) if h2 < h)), ok, short_loc(b.span), why)
-    ctx.floor('LOOP', 'loops on the decode path', n, 2)
+    ctx.floor('LOOP', 'loops on the decode path', n, 1)
